@@ -484,13 +484,18 @@ impl FileCombiner {
             debug_assert!(self.buf.is_empty());
             return Ok(());
         }
+        // Take the queue together with the buffer its offsets point into: if storing the
+        // block fails, those files must not stay queued and later be recorded with the
+        // same offsets into a different block.
+        let buf = take(&mut self.buf).freeze();
+        let queue = take(&mut self.queue);
         let hash = self
             .block_dir
-            .store_or_deduplicate(take(&mut self.buf).freeze(), &mut self.stats, monitor)
+            .store_or_deduplicate(buf, &mut self.stats, monitor)
             .await?;
         self.stats.combined_blocks += 1;
         self.finished
-            .extend(self.queue.drain(..).map(|qf| IndexEntry {
+            .extend(queue.into_iter().map(|qf| IndexEntry {
                 addrs: vec![Address {
                     hash: hash.clone(),
                     start: qf.start.try_into().unwrap(),
